@@ -40,7 +40,6 @@ go build ./... >> "$log" 2>&1 || { echo "RESULT $id$dv: does not build" | tee -a
 echo "== demo WITH the change" >> "$log"
 ( eval "$democmd" ) >> "$log" 2>&1; rc_with=$?
 echo "== existing suite WITH the change (demo files removed)" >> "$log"
-git stash -q -u -- $(git ls-files --others --exclude-standard) 2>/dev/null
 for f in $(git ls-files --others --exclude-standard); do rm -f "$f"; done
 go test -count=1 ./... 2>&1 | grep -v "no test files" | tail -25 >> "$log"; suite=${PIPESTATUS[0]}
 cd /verif
